@@ -451,7 +451,7 @@ def random_cases(draw):
         "start": draw(st.one_of(st.just(0), st.integers(0, size - 1))),
         "style": draw(st.one_of(st.sampled_from(sorted(STYLES)), custom_style())),
         "childiter": draw(st.sampled_from(["list", "reversed", "sort", "filter", "genfilter"])),
-        "maxlevel": draw(st.one_of(st.none(), st.integers(-1, 7))),
+        "maxlevel": draw(st.one_of(st.none(), st.integers(-1, 7), st.integers(-1, 7), st.sampled_from([0.5, 1.5, 2.5, 3.5, 2.0, -0.5]))),
         "cls": cls,
     }
     case["mutations"] = draw(strategies.tree_mutations(rename_values=st.text(alphabet="xyz", min_size=1, max_size=2)))
@@ -479,7 +479,7 @@ def _enum_cases(max_nodes, index, count):
                 continue
             for style in ENUM_STYLES:
                 for childiter in ("list", "reversed", "sort", "filter", "genfilter"):
-                    for maxlevel in [None, -1] + list(range(0, height + 3)):
+                    for maxlevel in [None, -1] + list(range(0, height + 3)) + sorted({1.5, max(height - 0.5, 0.5)}):
                         yield {"kind": "rows", "shape": forest.to_list(shape), "start": start, "style": style, "childiter": childiter, "maxlevel": maxlevel, "cls": ("Node", "EqNode", "LenNode", "Node", "FalsyNode")[k % 5]}
 
 
